@@ -622,14 +622,18 @@ def oracle_c12(scn, hist):
                     prevq = next((x['q'] for x in reversed(hist[:i]) if x['q']), None)
                     if prevq and prevq.get(fr[0], {}).get('live', 0) > 0 and not prevq[fr[0]]['closed']:
                         return ('timer-with-open-stream', 'step %d: session %s closed itself on the inactivity timer with %d open streams' % (i, fr[0], prevq[fr[0]]['live']))
-    q = hist[-1]['q']
-    if q:
+    for i, h in enumerate(hist):
+        q = h['q']
+        if not q:
+            continue
         for side in 'AB':
             if q[side]['closed']:
-                # every connection end of that side is closed (after FINs were delivered in the drain phase)
+                # at every quiescent moment a closed session has closed its end of every connection
                 for c, v in q.items():
-                    if c.startswith('c') and not v['failed'] and not v['cl' + side]:
-                        return ('conn-left-open', 'session %s is closed but its end of connection %s is still open after the drain' % (side, c[1:]))
+                    if c.startswith('c') and c[1:].isdigit() and not v['cl' + side]:
+                        return ('conn-left-open', 'step %d: session %s is closed but its end of connection %s is still open' % (i, side, c[1:]))
+    q = hist[-1]['q']
+    if q:
         if q['A']['closed'] and q['B']['closed'] and q.get('pending', 0) > 0:
             return ('left-blocked', '%d application calls are still blocked although both sessions are closed' % q['pending'])
         for side in 'AB':
